@@ -4,7 +4,9 @@ TLC decides KeepsIdentity, ReRegistersFresh (safety) and Recovers, ReRegisters (
 lifecyclers' own actions) on the lifecycler specification extended with Crash / CrashMid / BRegisterCrash, Wipe and
 reject windows, and FileNeverCorrupt on TokensFile.tla. harness/c08 TestRecordC09 injects a crash before and after the
 commit of every single store write of 12 scenarios, restarts the same identity and records; LifecyclerTrace.tla validates
-the traces including the recovery obligation at the quiesced end. TestTokensFile aborts the real StoreToFile at each stage.
+the traces including the recovery obligation at the quiesced end; likewise every CAS call of a scenario is the start of a
+window of rejected calls. TokensFile.tla is a machine over SEQUENCES of StoreToFile calls (each possibly aborted at any stage,
+token sets of different serialized length); TestTokensFile replays every sequence on real files through the failpoints.
 """
 import lifecycler_common as lc
 import verif
@@ -14,13 +16,15 @@ META = {
     "level_text": "TLC model-checks the lifecycler specification with process death (between any two actions, inside a write "
                   "before the commit - tokens file already rewritten - and right after it), store wipes and reject windows for "
                   "2 lifecyclers (classic and basic), deciding KeepsIdentity and ReRegistersFresh as action properties and "
-                  "Recovers / ReRegisters as leads-to properties under weak fairness; TokensFile.tla decides that an aborted "
-                  "StoreToFile leaves the old or the new file. Binding: for 12 scenarios (fresh join, join with observe, restart "
+                  "Recovers / ReRegisters as leads-to properties under weak fairness; TokensFile.tla decides, over all sequences of up to 3 "
+                  "StoreToFile calls with token sets of different serialized length, each completed or aborted at any stage, that a reader "
+                  "always finds exactly the last completed store's tokens. Binding: for 12 scenarios (fresh join, join with observe, restart "
                   "from tokens file / from the ring, leave with and without unregistering, token claim, basic register / observe / "
                   "leave / restart) every store write of the real lifecycler is a crash point, before and after the commit; the "
                   "same identity is restarted and the whole run, ending with the obligation that whoever runs is ACTIVE with its "
-                  "full token count, is validated by TLC against the specification; seeded wipe / reject-window schedules likewise; "
-                  "every terminal state of TokensFile.tla is replayed on the real StoreToFile through its failpoints.",
+                  "full token count, is validated by TLC against the specification; likewise every CAS call of a scenario is the start of a "
+                  "window of 1..3 rejected calls (a window may open between two consecutive calls of one burst), and seeded wipe / "
+                  "reject-window schedules; every call sequence of TokensFile.tla is replayed on real files through the failpoints.",
     "level_note": "Liveness is decided on the bounded model under fairness and, on the code, as 'holds at the quiesced end of the "
                   "recorded trace'. Crash = the process's store client and tokens-file writes stop at that point (indistinguishable "
                   "from a dead process for store and file). Re-registration with a fresh registration time is required of "
@@ -34,24 +38,28 @@ META = {
 
 def run(ctx):
     ctx.rule = ("one case = one recorded trace: a scenario with one crash point (scenario x incarnation x write index x "
-                "before/after commit) followed by restart and settling, or a seeded wipe / reject-window schedule, accepted by "
-                "LifecyclerTrace.tla including the final 'settled' obligation; plus one case per terminal state of TokensFile.tla; "
+                "before/after commit, or scenario x first rejected CAS call x window length) followed by restart / recovery time, or a seeded "
+                "wipe / reject-window schedule, accepted by LifecyclerTrace.tla including the final 'settled' obligation; plus one case "
+                "per sequence of StoreToFile calls emitted by TokensFile.tla; "
                 "non-trivial = at least 5 committed ring writes / an aborted file write")
     ctx.assumptions = ["a dead process = its kv client fails every call from the crash point on and its tokens file is frozen",
                        "store = consul in-memory client behind a recording wrapper that makes each CAS one atomic step",
                        "virtual clock of testing/synctest; whole seconds"]
-    # tokens file: specification, then every terminal state replayed on the real StoreToFile
-    r = ctx.tlc(lc.FAMILY, "TokensFile", cfg="TokensFile.cfg", workers=1, timeout=300, deadlock=False)
+    # tokens file: specification over sequences of (possibly aborted) stores, every sequence replayed on real files
+    tf_cfg, tf_k = ("TokensFile.cfg", 3) if ctx.tier == "quick" else ("TokensFile_t.cfg", 4)
+    r = ctx.tlc(lc.FAMILY, "TokensFile", cfg=tf_cfg, workers=2, timeout=600, deadlock=False)
     ctx.require_tlc_ok(r, "TokensFile")
     if r.emitted == 0:
         raise verif.Inconclusive("TokensFile emitted no cases")
-    res = ctx.run_harness("c08", "^TestTokensFile$", env={"VERIF_IN": r.out_path}, timeout=300)
+    res = ctx.run_harness("c08", "^TestTokensFile$", env={"VERIF_IN": r.out_path, "VERIF_K": tf_k}, timeout=600)
+    if not res.get("cases"):
+        raise verif.Inconclusive("tokens-file replay ran no cases")
     ctx.absorb(res, "tokens-file")
     if ctx.tier == "quick":
         lc.model_check(ctx, ["MC_c09_quick", "MC_live_crash"], timeout=600)
-        lc.record_and_validate(ctx, "TestRecordC09", {"VERIF_FAULT_TRACES": 20}, timeout_tlc=900, label="crash/fault record/validate")
+        lc.record_and_validate(ctx, "TestRecordC09", {"VERIF_FAULT_TRACES": 20, "VERIF_WINDOWS": "quick"}, timeout_tlc=900, label="crash/fault record/validate")
     else:
         lc.model_check(ctx, ["MC_c09a", "MC_c09b", "MC_live_crash", "MC_live_kv"], timeout=3000)
-        lc.record_and_validate(ctx, "TestRecordC09", {"VERIF_FAULT_TRACES": 400}, timeout_go=1500, timeout_tlc=2400,
+        lc.record_and_validate(ctx, "TestRecordC09", {"VERIF_FAULT_TRACES": 400, "VERIF_WINDOWS": "full"}, timeout_go=1500, timeout_tlc=2400,
                                label="crash/fault record/validate")
     return "model_checking"
